@@ -436,7 +436,7 @@ theorem models_rel (root : CN) (ts : Types) (hn : (ts.map (·.1)).Nodup) (hc : c
   have hct : ∀ n t, lookupT ts n = some t → cls ts t = true :=
     fun n t h => htypes (n, t) (lookupT_mem ts n t h)
   rw [linkCheck_plain _ (plainG_lkOf root ts)]
-  have hfuel : ∃ f, checkFuel (some root) ts = f + 1 := ⟨ts.length + 1 + namesCount root + (ts.map fun t => namesCount t.2).sum, by
+  have hfuel : ∃ f, checkFuel (some root) ts = f + 1 := ⟨ts.length + 1 + 2 * (namesCount root + (ts.map fun t => namesCount t.2).sum), by
     simp only [checkFuel]; omega⟩
   obtain ⟨f, hf⟩ := hfuel
   have hsorted : LK.sortedNames (lkOf root ts) = sortNames (ts.map (·.1)) := by
